@@ -61,6 +61,10 @@ def op_to_coq(o):
         return "HL Heal"
     if k == "sessloss":
         return "HSessLoss"
+    if k == "shutwin":
+        return "HL SessLoss"
+    if k == "endwin":
+        return "HEndWin"
     raise ValueError("unknown op " + k)
 
 
